@@ -3,7 +3,7 @@ import ast
 
 from .. import astutil as A
 from .. import paths as P
-from ..lazy import FlowAnalyser, GROW_METHODS, carried_names, in_loop_body, pulled_taint
+from ..lazy import FlowAnalyser, GROW_METHODS, carried_names, in_loop_body
 from ..loader import methods
 from ..selftest.runner import M, TW, V
 
@@ -90,6 +90,89 @@ def consumed_kinds():
     return ("pull-loop", "pull-one", "eager", "bounded", "drain")
 
 
+# -- spelling-independent views -------------------------------------------------------------------
+def inplace_update(st):
+    """(target, op, value) when the statement *st* computes the new value of a target from its old value
+    and one more operand: `T op= E`, the equivalent `T = T op E`, and -- for a local name and the
+    operators + * | & ^ -- `x = E op x`; else None."""
+    if not isinstance(st, (ast.Assign, ast.AugAssign)):
+        return None
+    aa = A.as_augassign(st)
+    if aa is not None:
+        return aa
+    if isinstance(st, ast.Assign) and len(st.targets) == 1 and isinstance(st.targets[0], ast.Name) \
+            and isinstance(st.value, ast.BinOp) and isinstance(st.value.op, (ast.Add, ast.Mult, ast.BitOr, ast.BitAnd, ast.BitXor)) \
+            and isinstance(st.value.right, ast.Name) and st.value.right.id == st.targets[0].id:
+        return st.targets[0], st.value.op, st.value.left
+    return None
+
+
+def accumulation(st):
+    """(name, op, value) when *st* is an in-place update (see inplace_update) of a local name; else None."""
+    up = inplace_update(st)
+    if up is not None and isinstance(up[0], ast.Name):
+        return up[0].id, up[1], up[2]
+    return None
+
+
+def pulled_taint(fn, seeds, loop=None, accumulations=True):
+    """Local names whose value derives from the pulled values *seeds* (names) by plain assignments /
+    unpacking / for-iteration / in-place updates, inside *loop* (or the whole function).  `x op= e` and
+    `x = x op e` are one construct: with accumulations=True both taint x when e is tainted (x then holds
+    something made of pulled values over the back edge); with accumulations=False both are left out
+    (the names that are pulled values *themselves*, not collections or sums of them)."""
+    tainted = set(seeds)
+    body = loop.body if loop is not None else fn.body
+    changed = True
+    while changed:
+        changed = False
+        for n in A.walk_body(body):
+            names = ()
+            acc = accumulation(n)
+            if acc is not None:
+                if accumulations and (A.names_loaded(acc[2]) & tainted):
+                    names = [acc[0]]
+            elif isinstance(n, ast.Assign):
+                if A.names_loaded(n.value) & tainted:
+                    names = [nm for t in n.targets if isinstance(t, (ast.Name, ast.Tuple, ast.List)) for nm in A.target_names(t)]
+            elif isinstance(n, (ast.For, ast.AsyncFor)) and n is not loop:
+                if A.names_loaded(n.iter) & tainted:
+                    names = A.target_names(n.target)
+            for nm in names:
+                if nm not in tainted:
+                    tainted.add(nm)
+                    changed = True
+    return tainted
+
+
+def returned_values(fn, ret):
+    """The expressions a `return` statement can deliver: a returned local name stands for the value of its
+    last plain assignment on each path that reaches the return (`_r = list(x); return _r` delivers
+    `list(x)`); anything else stands for itself."""
+    if not isinstance(ret.value, ast.Name):
+        return [ret.value]
+    out = []
+    for p in P.paths_of(fn):
+        end = p.index(ret)
+        if end < 0:
+            continue
+        v, upto, hops = ret.value, end, 0
+        while isinstance(v, ast.Name) and hops < 6:
+            hops += 1
+            at = None
+            for i, e in enumerate(p.ev[:upto]):
+                if e[0] == "stmt" and v.id in [x for t in A.assigned_targets(e[1]) for x in A.target_names(t)]:
+                    at = i if isinstance(e[1], ast.Assign) and len(e[1].targets) == 1 and isinstance(e[1].targets[0], ast.Name) else None
+                elif e[0] in ("iter", "partial") and v.id in [x for t in A.assigned_targets(e[1]) for x in A.target_names(t)]:
+                    at = None
+            if at is None:
+                break
+            v, upto = p.ev[at][1].value, at
+        if not any(v is o for o in out):
+            out.append(v)
+    return out or [ret.value]
+
+
 def produced_flow_names(fn):
     """Locals of *fn* that hold a flow the function produces itself and hands on: the non-parameter
     names that reach a returned expression through `x = <expr>` assignments and that are bound from a
@@ -160,11 +243,14 @@ def check_nongen(ctx, fa, fn, qual, names, rule="C02-a"):
     # every returned expression is a lazy view, not a materialised container
     rets = [r for r in A.walk_local(fn) if isinstance(r, ast.Return) and r.value is not None] if not isinstance(fn, ast.Lambda) else []
     for r in rets:
-        v = r.value
-        bad = isinstance(v, (ast.List, ast.ListComp, ast.Tuple, ast.Set, ast.SetComp, ast.Dict, ast.DictComp)) or (
-            isinstance(v, ast.Call) and ctx.res.canon(v.func) in ("builtins.list", "builtins.tuple", "builtins.sorted", "builtins.set"))
-        ctx.check(rule, not bad, r, "%s returns the materialised container `%s` instead of a lazy iterator" % (qual, A.short(v, 60)),
-                  detail="%s returns a lazy view: %s" % (qual, A.short(v, 60)))
+        # what the return delivers, whether it is written `return f(x)` or `tmp = f(x); return tmp`
+        vals = returned_values(fn, r)
+        mat = [v for v in vals if isinstance(v, (ast.List, ast.ListComp, ast.Tuple, ast.Set, ast.SetComp, ast.Dict, ast.DictComp)) or (
+            isinstance(v, ast.Call) and ctx.res.canon(v.func) in ("builtins.list", "builtins.tuple", "builtins.sorted", "builtins.set"))]
+        v = mat[0] if mat else vals[0]
+        ctx.check(rule, not mat, r, "%s returns the materialised container `%s` instead of a lazy iterator" % (qual, A.short(v, 60)),
+                  detail="%s returns a lazy view: %s" % (qual, A.short(v, 60)),
+                  construct=None if v is r.value else "return %s" % A.short(v, 153))
     return uses
 
 
@@ -226,7 +312,7 @@ def check_stream(ctx, fa, fn, qual, names, lookahead, rule="C02-b", allow=()):
                     for t in st.targets:
                         seeds.update(A.target_names(t))
         tainted = pulled_taint(fn, seeds, loop)
-        check_growing(ctx, fn, qual, loop, tainted, rule)
+        check_growing(ctx, fn, qual, loop, tainted, rule, own=pulled_taint(fn, seeds, loop, accumulations=False))
         body_paths = P.loop_body_paths(loop)
         carried = carried_names(loop, body_paths, fn)
         held = sorted(n for n in carried if n in tainted)
@@ -290,11 +376,15 @@ def container_origin(fn, loop, name):
     return ("outside", vals[0])
 
 
-def check_growing(ctx, fn, qual, loop, tainted, rule):
+def check_growing(ctx, fn, qual, loop, tainted, rule, own=None):
+    """*tainted*: the names made of pulled values; *own*: those of them that are pulled values themselves
+    (changing one of these is changing the value, not collecting values)."""
+    own = tainted if own is None else own
     found = False
     for n in A.walk_body(loop.body):
         target = None
         what = None
+        up = inplace_update(n)
         if isinstance(n, ast.Call) and isinstance(n.func, ast.Attribute) and n.func.attr in GROW_METHODS:
             args = list(n.args) + [k.value for k in n.keywords]
             if any(A.names_loaded(a) & tainted for a in args):
@@ -304,15 +394,15 @@ def check_growing(ctx, fn, qual, loop, tainted, rule):
             val = getattr(st, "value", None)
             if val is not None and (A.names_loaded(val) & tainted):
                 target, what = n.value, "item store"
-        elif isinstance(n, ast.AugAssign) and isinstance(n.op, ast.Add) and (A.names_loaded(n.value) & tainted) \
-                and isinstance(n.value, (ast.List, ast.Tuple)):
-            target, what = n.target, "+= [...]"
+        elif up is not None and isinstance(up[1], ast.Add) and (A.names_loaded(up[2]) & tainted) \
+                and isinstance(up[2], (ast.List, ast.Tuple)):
+            target, what = up[0], "+= [...]"      # also when it is written `x = x + [...]`
         if target is None:
             continue
         root = A.root_name(target)
         if root is None:
             continue
-        if root in tainted and root != "self":
+        if root in own and root != "self":
             continue   # changing the pulled value itself (its context), not collecting values
         if root == "self":
             found = True
@@ -435,7 +525,7 @@ def check_split(ctx, fa):
               "(%s): it holds more than bufsize unprocessed values / has read the next block before the results of this one were "
               "handed downstream" % ", ".join(held), detail="no block-derived value is loop-carried (%d names derive from the block)"
               % len(tainted), construct="prefetch:%s" % ",".join(held))
-    check_growing(ctx, fn, "Split.run", loop, tainted, rule)
+    check_growing(ctx, fn, "Split.run", loop, tainted, rule, own=pulled_taint(fn, {bufname}, loop, accumulations=False))
     # the loop is left only when the read returned nothing
     for p in body_paths:
         if p.end == "break":
@@ -584,7 +674,8 @@ def check_negative_slice(ctx, fa):
         ctx.ok(rule, fn, "negative Slice: %d uses of the flow; whole-flow drains only into deques bounded by -start/-stop" % len(uses))
     for loop in loops:
         seeds = set(A.target_names(loop.target))
-        check_growing(ctx, fn, "Slice._run_negative_islice", loop, pulled_taint(fn, seeds, loop), rule)
+        check_growing(ctx, fn, "Slice._run_negative_islice", loop, pulled_taint(fn, seeds, loop), rule,
+                      own=pulled_taint(fn, seeds, loop, accumulations=False))
         if not any(isinstance(n, (ast.Yield, ast.YieldFrom)) for n in A.walk_body(loop.body)):
             check_early_exit(ctx, fn, loop, rule)
             continue
@@ -618,11 +709,14 @@ def monotone_counters(loop):
     the loop body and not stored otherwise in it."""
     cand = {}
     for n in A.walk_body(loop.body):
-        if isinstance(n, ast.AugAssign) and isinstance(n.target, ast.Name) and isinstance(n.op, ast.Add) \
-                and isinstance(n.value, ast.Constant) and isinstance(n.value.value, int) and n.value.value > 0:
-            cand.setdefault(n.target.id, []).append(n)
+        # `i += k`, `i = i + k`, `i = k + i`: one construct
+        acc = accumulation(n)
+        if acc is not None and isinstance(acc[1], ast.Add) and isinstance(acc[2], ast.Constant) \
+                and isinstance(acc[2].value, int) and not isinstance(acc[2].value, bool) and acc[2].value > 0:
+            cand.setdefault(acc[0], []).append(n)
     for n in A.walk_body(loop.body):
-        if isinstance(n, ast.Name) and isinstance(n.ctx, ast.Store) and n.id in cand and not isinstance(A.parent(n), ast.AugAssign):
+        if isinstance(n, ast.Name) and isinstance(n.ctx, ast.Store) and n.id in cand \
+                and not any(A.parent(n) is inc for inc in cand[n.id]):
             cand.pop(n.id, None)
     out = set()
     paths = P.loop_body_paths(loop)
